@@ -9,6 +9,7 @@ import core, gen, families
 
 
 def _alphabet(v, d, model):
+    same_uri = []
     rng = v.rng
     configs = sorted(v.paths.keys())
     ops = []
@@ -29,6 +30,10 @@ def _alphabet(v, d, model):
             p = paths[k]; k += 1
             ops.append({"op": "sid_call", "from": {"s": s}, "m": "path", "config": c})
             ops.append({"op": "sid_call", "from": {"s": s}, "m": "path", "config": c, "kw": True})
+            if k % 3 == 1:      # an undefined Sid with the uri of the typed one, and the typed one by its uri
+                ops.append({"op": "sid_call", "from": {"s": "nosuchtype:" + label + ":" + s}, "m": "path", "config": c})
+                ops.append({"op": "sid_call", "from": {"s": label + ":" + s}, "m": "path", "config": c})
+                same_uri.append([[ops[-2]], [ops[-1], ops[-4]]])      # asked in this order in the histories
             if p:
                 for c2 in configs:
                     ops.append({"op": "sid", "path": p, "config": c2})
@@ -139,7 +144,7 @@ def _alphabet(v, d, model):
         rng.shuffle(spellings)
         ops += spellings
         related.append([[sp] for sp in spellings[:4]])
-    v.c13_related = related + obj_groups
+    v.c13_related = related + obj_groups + same_uri
     return [o for o in ops if o]
 
 
